@@ -223,6 +223,10 @@ func checkErrPropagation(c *Ctx, rule, rel, fname, calleeSuffix string) {
 	if fn == nil {
 		return
 	}
+	checkErrPropagationFn(c, rule, rel, fname, fn, calleeSuffix)
+}
+
+func checkErrPropagationFn(c *Ctx, rule, rel, fname string, fn *ssa.Function, calleeSuffix string) {
 	label := fname
 	if rel != "" {
 		label = rel + ":" + fname
